@@ -1422,6 +1422,39 @@ pub fn f12(thorough: bool) -> Vec<Case> {
     out
 }
 
+/// F14: programs that cannot terminate, run under a 60 ms execution budget: every cycle must end
+/// with the budget-timeout fault (and no frame left) instead of hanging. Loop kind × body shape
+/// (empty, statement, nested empty loop, call) × place (program, function, FB, method).
+pub fn f14() -> Vec<Case> {
+    let mut out = Vec::new();
+    let loops: [(&str, &str, &str); 4] = [
+        ("while", "WHILE NOT stop DO", "END_WHILE;"),
+        ("while-true", "WHILE TRUE DO", "END_WHILE;"),
+        ("repeat", "REPEAT", "UNTIL stop END_REPEAT;"),
+        ("for-huge-nested", "FOR i := -2147483647 TO 2147483647 DO FOR j := -2147483647 TO 2147483647 DO", "END_FOR; END_FOR;"),
+    ];
+    let bodies: [(&str, &str); 4] = [("empty", ""), ("statement", "n := n + 0;"), ("nested-empty-loop", "WHILE FALSE DO END_WHILE;"), ("call", "n := Id(n);")];
+    let decls = "stop : BOOL; i : DINT; j : DINT; n : DINT; stp : DINT := 1;";
+    let idf = "FUNCTION Id : DINT\nVAR_INPUT v : DINT; END_VAR\n    Id := v;\nEND_FUNCTION\n";
+    for (lname, open, close) in loops {
+        for (bname, body) in bodies {
+            let lp = format!("{open} {body} {close}");
+            for place in ["program", "function", "fb", "method"] {
+                let text = match place {
+                    "program" => format!("{idf}PROGRAM Main\nVAR {decls} END_VAR\n    {lp}\nEND_PROGRAM\n"),
+                    "function" => format!("{idf}FUNCTION Spin : DINT\nVAR_INPUT stop : BOOL; END_VAR\nVAR i : DINT; j : DINT; n : DINT; stp : DINT := 1; END_VAR\n    {lp}\n    Spin := n;\nEND_FUNCTION\nPROGRAM Main\nVAR r : DINT; END_VAR\n    r := Spin(FALSE);\nEND_PROGRAM\n"),
+                    "fb" => format!("{idf}FUNCTION_BLOCK Spin\nVAR {decls} END_VAR\n    {lp}\nEND_FUNCTION_BLOCK\nPROGRAM Main\nVAR f : Spin; END_VAR\n    f();\nEND_PROGRAM\n"),
+                    _ => format!("{idf}FUNCTION_BLOCK Holder\nVAR {decls} END_VAR\nMETHOD PUBLIC Spin : DINT\n    {lp}\n    Spin := n;\nEND_METHOD\nEND_FUNCTION_BLOCK\nPROGRAM Main\nVAR h : Holder; r : DINT; END_VAR\n    r := h.Spin();\nEND_PROGRAM\n"),
+                };
+                let mut c = raw("F14", &format!("endless:{lname}:{bname}:{place}"), &text, 1);
+                c.prog.budget_ms = Some(60);
+                out.push(c);
+            }
+        }
+    }
+    out
+}
+
 pub fn corpus(thorough: bool) -> Vec<Case> {
     let mut out = Vec::new();
     out.extend(f2());
@@ -1436,5 +1469,6 @@ pub fn corpus(thorough: bool) -> Vec<Case> {
     out.extend(f10());
     out.extend(f11(thorough));
     out.extend(f12(thorough));
+    out.extend(f14());
     out
 }
